@@ -400,12 +400,15 @@ class SIOWriter(BaseWriter):
         """
 
         self._data_written = True
+        self._close_after = False
         if isinstance(file_object, str):
             if check_existence and os.path.exists(file_object):
                 raise SarpyIOError(
                     'Given file {} already exists,\n\t'
                     'and a new SIO file cannot be created here.'.format(file_object))
             file_object = open(file_object, 'wb')
+            # NB: we opened this, so we are responsible for closing it
+            self._close_after = True
 
         if not is_file_like(file_object):
             raise ValueError('file_object requires a file path or BinaryIO object')
@@ -505,4 +508,7 @@ class SIOWriter(BaseWriter):
 
         self.flush(force=True)
         BaseWriter.close(self)
+        if getattr(self, '_close_after', False):
+            self._close_after = False
+            self._file_object.close()
         self._file_object = None
